@@ -177,7 +177,23 @@ static void check_rule(Rng& rng, unsigned n, double a, double b, bool reversed)
 		if(rng.coin(0.5))
 		{
 			double fa = rng.coin() ? rng.sign() * rng.loguni(1e3, 1e9) : rng.uni(-5, 5), fw = rng.coin() ? rng.loguni(1e-3, 1.0) : rng.loguni(1.0, 1e3);
-			(void) Integrate_Gauss_Legendre([](double x) { return x; }, fa, fa + fw, n);
+			// ... or a rule of a neighbouring order (seeded change C07-r6m2 kept the Legendre roots of the last rule and reused those of order
+			// 2m-1 for order 2m), or the 200-point rule that GammaQ computes internally
+			// (one to three rules in a row: a cache keyed too coarsely is only refilled by an order that it tells apart)
+			for(int hcalls = 1 + (int) rng.below(3); hcalls > 0; hcalls--)
+			{
+				unsigned hn = n;
+				switch(rng.below(6))
+				{
+					case 0: hn = n + 1; break;
+					case 1: hn = n > 1 ? n - 1 : 2; break;
+					case 2: hn = rng.coin() ? 200 : 199; break;
+					case 3: hn = 30; break;
+					case 4: hn = 1 + (unsigned) rng.below(2 * n + 2); break;
+					default: break;
+				}
+				(void) Integrate_Gauss_Legendre([](double x) { return x; }, fa, fa + fw, hn);
+			}
 		}
 		double v1 = Integrate_Gauss_Legendre(traced(f, &tr), a1, b1, n);
 		{
